@@ -281,9 +281,64 @@ def budgets_and_switches(chk, R, rng, n, tag):
     return dist, ndis
 
 
+def assert_constants(chk, R, rng, n, tag):
+    """family of /repo b4e61a4 (F77): constants holding assertions over addresses / labels / banks (global and nested, used
+    and unused) x budgets 1..4, static optimisation OFF: implementation = model including the pass count; a success must
+    be reproduced at every larger budget"""
+    budgets = [1, 2, 3, 4]
+    progs = [(asm2_gen.gen_assert_prog(rng), rng.chance(0.5)) for _ in range(n)]
+    icases, mcases = [], []
+    for (p, m) in progs:
+        t = p.text()
+        for b in budgets:
+            icases.append((t, b, False, m))
+            mcases.append((p, b, m))
+    ia = R.impl(icases)
+    ma = R.model_run(mcases)
+    k = len(budgets)
+    dist = {"ok": 0, "err": 0, "budget_dependent": 0}
+    ndis = 0
+    for pi, (p, m) in enumerate(progs):
+        res = [asm2_gen.canon_impl(x) for x in ia[pi * k:(pi + 1) * k]]
+        mod = [asm2_gen.canon_model(x) for x in ma[pi * k:(pi + 1) * k]]
+        text = icases[pi * k][0]
+        rep = {"kind": "assert_constants2", "program": text, "static_opt": False, "matcher_opt": m, "budgets": budgets,
+               "impl": [str(sig(r))[:300] + " it=%s" % r[2] for r in res], "model": [x[:300] for x in ma[pi * k:(pi + 1) * k]]}
+        chk.nontriv(text)
+        if any(r[0] not in ("OK", "ERR") for r in res):
+            chk.violation("implementation crashed or was inconsistent (assertion constants)", rep)
+            continue
+        oks = [j for j, r in enumerate(res) if r[0] == "OK"]
+        dist["ok" if res[-1][0] == "OK" else "err"] += 1
+        if oks and len(oks) < k:
+            dist["budget_dependent"] += 1
+        bad = False
+        for j in oks:
+            if res[j][2] > budgets[j] or any(sig(res[j2]) != sig(res[j]) for j2 in range(j + 1, k)):
+                chk.violation("budget %d succeeds but a larger budget differs / pass count above budget (assertion constants)" % budgets[j], rep)
+                bad = True
+                break
+        if bad:
+            continue
+        for j in range(k):
+            if res[j] != mod[j]:
+                ndis += 1
+                chk.violation("Resolver2 model/implementation correspondence broken at budget %d (assertion constants): impl %s model %s"
+                              % (budgets[j], str(res[j])[:300], str(mod[j])[:300]),
+                              dict(rep, theorems=["C02b_certificate", "C02b_constant_not_failed", "C09b_monotone"]), found=False)
+                break
+        if pi % max(1, n // 2) == 1:
+            chk.sample({"program": text, "results": rep["impl"]})
+    chk.count("resolver2_assert_constants_x_budgets" + tag, len(icases), **dist)
+    chk.cov["traces_validated_against_impl"] += len(icases)
+    chk.cov["disagreements_checked"] += ndis
+    return dist, ndis
+
+
 def run_streams(chk, quick, which=("correspondence", "budgets", "layout")):
     """Entry point for c02.py / c09.py / c06.py:
          c02.py: run_streams(chk, quick, which=("correspondence",))   quick 2k / thorough 20k programs (+ certificates)
+                 + assertion-constant family x budgets 1..4 (quick 250 / thorough 2.5k programs; also with "budgets")
          c09.py: run_streams(chk, quick, which=("budgets",))          quick 300 / thorough 2.5k programs x 8 budgets, x 4 switches
          c06.py: run_streams(chk, quick, which=("layout",))           quick 1k / thorough 8k programs with >= 1 #bankdef
        the three streams use different forks of chk.rng, so they see different programs."""
@@ -292,8 +347,10 @@ def run_streams(chk, quick, which=("correspondence", "budgets", "layout")):
     out = {}
     if "correspondence" in which:
         out["correspondence"] = correspondence(chk, R, rng.fork("corr"), 2000 if quick else 20000, "")
+        out["asserts"] = assert_constants(chk, R, rng.fork("asserts-c"), 250 if quick else 2500, "")
     if "budgets" in which:
         out["budgets"] = budgets_and_switches(chk, R, rng.fork("budgets"), 300 if quick else 2500, "")
+        out["asserts_b"] = assert_constants(chk, R, rng.fork("asserts-b"), 250 if quick else 2500, "_b")
     if "layout" in which:
         out["layout"] = correspondence(chk, R, rng.fork("layout"), 1000 if quick else 8000, "_banks", need_banks=True)
     return out
@@ -327,6 +384,8 @@ if __name__ == "__main__":
     t2 = time.time()
     d2 = budgets_and_switches(chk, R, rng.fork("budgets"), nb, "") if nb else None
     t3 = time.time()
+    d4 = assert_constants(chk, R, rng.fork("asserts-c"), max(1, n // 8), "")
+    print("assertion constants (%d programs x budgets 1..4): %s" % (max(1, n // 8), d4))
     d3 = correspondence(chk, R, rng.fork("layout"), max(1, n // 2), "_banks", need_banks=True)
     t4 = time.time()
     print("layout stream (%d programs with banks) %.1fs: %s" % (max(1, n // 2), t4 - t3, d3))
